@@ -143,3 +143,8 @@ PROPS.update({
         "assumptions": ["the data tables of the property are the seven tables the retention code groups: samples_v3, tempo_traces, metrics_15s (sample tables) and time_series, time_series_gin, tempo_traces_attrs_gin, tempo_traces_kv (index tables)"],
     },
 })
+
+PROPS["C14"] = read("C14", "TestC14", "deterministic simulation of translation histories: the SQL observed at the query face for one request is compared (after erasing time literals) between a first translation, one after a history of other translations, one interleaved with concurrent translations by the baton scheduler, earlier runs of the same worker process, successive ticks of the live-tail loop on one prepared plan, and the portions of a complex TraceQL request",
+                    "Histories, interleavings and repeated executions are simulated with the real services; equal canonical text implies equal meaning (sound for passing), any other difference is reported. Query programs are sampled from the LogQL/TraceQL generators.",
+                    "the canonicaliser erases integer literals of 9+ digits, date literals, and for TraceQL portions the portion selector and the list of found trace ids; live tail is exercised for log queries only (Loki defines tailing for log queries)", READ_RULE.replace("1-3 concurrent clients x 1-4 requests", "one subject request translated first / after 0-4 other requests / concurrently with 0-3 others / tailed for 0-4 ticks"),
+                    ["tail-ticks-compared", "traceql-portions-compared", "translations-compared"], quick_checks=300, design_ref="DESIGN.md §5 C14")
